@@ -737,6 +737,31 @@ pub fn sweeps(thorough: bool) -> Vec<(Program, String)> {
 	add(prog(vec![Def::Union { variants: vec![pl(i32_()), FieldTy::Skipped, pl(str_())], unit_at: Some(0) }]), "skip: skipped variant in a union enum");
 	add(prog(vec![st(vec![pl(nm(1))]), Def::Union { variants: vec![FieldTy::Skipped, FieldTy::Fixed(4), FieldTy::Fixed(4)], unit_at: None }]), "skip: skipped first variant before variant-owned fixed types");
 
+	// S11: generic union enums. `V(T)` is named after the branch `T` maps to (first instantiation =
+	// serde rename, further ones = serde aliases); variants owning a named node keep a constant name
+	for ns in [None, Some("ns1"), Some("")] {
+		let tag = ns.map_or("no namespace attribute".to_owned(), |n| format!("namespace = \"{n}\""));
+		let e = |t: Ty| Ty::Gen(1, vec![t]);
+		let owning: Vec<(Def, &str)> = vec![
+			(Def::Union { variants: vec![FieldTy::Fixed(4), FieldTy::Param], unit_at: None }, "E<T> { V4([u8; 4]), O(T) }"),
+			(Def::Union { variants: vec![FieldTy::Fixed(4), FieldTy::Fixed(16), FieldTy::Param], unit_at: None }, "E<T> { A([u8; 4]), B([u8; 16]), O(T) }"),
+			(Def::Union { variants: vec![decf(), dur(), FieldTy::Param], unit_at: Some(0) }, "E<T> { Null, decimal-on-fixed, duration, O(T) }"),
+		];
+		for (d, what) in owning {
+			add(with_ns(prog(vec![st(vec![pl(e(i32_()))]), d.clone()]), 1, ns), &format!("generic enum owning named nodes, one instantiation: {what} at i32, {tag}"));
+			add(with_ns(prog(vec![st(vec![pl(e(str_())), pl(vec_(e(str_())))]), d.clone()]), 1, ns), &format!("generic enum owning named nodes, one instantiation: {what} at String, shared, {tag}"));
+			add(with_ns(prog(vec![st(vec![pl(e(nm(2)))]), d.clone(), s2()]), 1, ns), &format!("generic enum owning named nodes, one instantiation: {what} at a record, {tag}"));
+			add(with_ns(prog(vec![st(vec![pl(e(i32_())), pl(e(str_()))]), d.clone()]), 1, ns), &format!("generic enum owning named nodes, two instantiations: {what} at i32 and String, {tag}"));
+			add(with_ns(prog(vec![st(vec![pl(e(vec_(i32_()))), pl(e(vec_(str_())))]), d.clone()]), 1, ns), &format!("generic enum owning named nodes, two instantiations: {what} at Vec<i32> and Vec<String> (one variant name), {tag}"));
+		}
+		let t_only = || Def::Union { variants: vec![FieldTy::Param], unit_at: Some(0) };
+		add(with_ns(prog(vec![st(vec![pl(e(i32_()))]), t_only()]), 1, ns), &format!("generic enum of T-dependent variants only: E<T> {{ N, S(T) }} at i32, {tag}"));
+		add(with_ns(prog(vec![st(vec![pl(e(i32_())), pl(e(str_()))]), t_only()]), 1, ns), &format!("generic enum of T-dependent variants only: at i32 and String, {tag}"));
+		add(with_ns(prog(vec![st(vec![pl(e(vec_(i32_()))), pl(e(vec_(str_()))), pl(vec_(e(vec_(i32_()))))]), t_only()]), 1, ns), &format!("generic enum of T-dependent variants only: at Vec<i32> and Vec<String> (one variant name), {tag}"));
+		add(with_ns(prog(vec![st(vec![pl(e(i32_())), pl(e(str_())), pl(e(nm(2))), pl(bmap(e(lf(Leaf::Bool))))]), t_only(), s2()]), 1, ns), &format!("generic enum of T-dependent variants only: at i32, String, a record and bool, {tag}"));
+	}
+	add(prog(vec![st(vec![pl(Ty::Gen(1, vec![i32_()])), pl(Ty::Gen(1, vec![lf(Leaf::I64)]))]), Def::Union { variants: vec![pl(str_()), FieldTy::Param], unit_at: None }]), "generic enum of T-dependent variants only: E<T> { String(String), O(T) } at i32 and i64");
+
 	// S8: recursion
 	let list = |p: Ptr| st(vec![pl(lf(Leaf::I64)), pl(opt(ptr(p, nm(0))))]);
 	for p in [Ptr::Box, Ptr::Rc, Ptr::Arc] {
